@@ -10,7 +10,10 @@
 (***************************************************************************)
 EXTENDS Consistency, Json, TLC
 
-CONSTANTS Kind, Threads, V, MaxLen, BadUpTo
+CONSTANTS Kind, Threads, V, MaxLen, BadUpTo,
+          Typed     \* TRUE: returns have the kind that fits the operation in flight and reads return a value that was
+                    \* written (or the initial one) -- used for SAMPLING long histories, where uniformly random returns
+                    \* would almost never be consistent; FALSE: the full alphabet (exhaustive enumeration)
 
 VARIABLE h
 Inits == Ops(Kind, V)
@@ -18,12 +21,26 @@ Returns == Rets(Kind, V, 2)
 Events == {[k |-> "inv", t |-> t, x |-> o] : t \in Threads, o \in Inits}
      \cup {[k |-> "ret", t |-> t, x |-> r] : t \in Threads, r \in Returns}
 
+LastInv(t) == LET ix == {i \in DOMAIN h : h[i].t = t /\ h[i].k = "inv"} IN
+              IF ix = {} THEN [k |-> "none", v |-> 0] ELSE h[CHOOSE i \in ix : \A j \in ix : j <= i].x
+Written == {0} \cup {h[i].x.v : i \in {j \in DOMAIN h : h[j].k = "inv" /\ h[j].x.k \in {"w", "push"}}}
+Fits(e) ==
+  e.k = "inv" \/ ~Typed \/
+  LET o == LastInv(e.t) IN
+  CASE o.k = "w"    -> e.x.k \in (IF Kind = "wo" THEN {"wok", "wfail"} ELSE {"wok"})
+    [] o.k = "r"    -> e.x.k = "rok" /\ e.x.v \in Written
+    [] o.k = "push" -> e.x.k = "pushok"
+    [] o.k = "pop"  -> e.x.k = "popok" /\ e.x.v \in Written
+    [] o.k = "len"  -> e.x.k = "lenok"
+    [] OTHER -> TRUE
+
 Init == h = <<>>
 Next ==
   /\ Len(h) < MaxLen
   /\ \E e \in Events :
        LET g == Append(h, e) IN
        /\ h' = g
+       /\ Fits(e)
        /\ \/ WellFormed(g)
           \/ WellFormed(h) /\ Len(h) <= BadUpTo               \* the step that breaks well-formedness
           \/ ~WellFormed(h) /\ Len(h) < IllFormedAt(h) + 2    \* at most two events after it
